@@ -325,6 +325,7 @@ pub struct H {
     pub current: String,
     pub cur_path: Option<String>,
     pub tag: i64, // script line of the event (exec), -1 otherwise
+    pub conv_faults: bool, // inject panics into user conversions (`Into<Components>`) of create
     pub light: bool, // light observation: len/capacity only (long histories)
 }
 
@@ -453,6 +454,7 @@ impl H {
             current: String::new(),
             cur_path: None,
             tag: -1,
+            conv_faults: false,
             light: false,
         }
     }
@@ -749,6 +751,9 @@ impl H {
     }
 
     pub fn op_create(&mut self, wi: usize, ai: usize, payload: &[i64], via: u8, within: bool) -> Option<Tok> {
+        // a panic in the user's conversion into the Components struct (creation paths 4.. / 3..)
+        let want_cfault = self.conv_faults && self.step % 3 == 0;
+        reg::with(|r| r.conv_fault = want_cfault);
         let w = self.worlds[wi].as_mut().unwrap();
         let mut made: Option<Tok> = None;
         let (vals, out): (Vec<Val>, J) = with_arch!(ai, A => {
@@ -769,7 +774,9 @@ impl H {
             (vals, out)
         });
         if let Some(t) = made { self.pool[wi].push(t); }
+        let cfault = want_cfault && !reg::take_conv_fault();
         self.emit(vec![
+            ("cfault", J::B(cfault)),
             ("op", J::s(if within { "create_within" } else { "create" })),
             ("w", ji(wi)),
             ("a", ji(ai)),
